@@ -24,7 +24,7 @@ RULE = ("every entry of data/standards.txt (exact rationals for defined units/pr
 ASSUMPTIONS = ["the table was written from memory of the SI brochure / NIST SP 811 / Handbook 44 / CODATA 2022 without network access and "
                "cross-checked only by internal consistency relations (mile = 1760 yd, lb = 7000 gr, gal = 231 in^3, R = k N_A, ...)",
                "two SI defining constants (caesium frequency, K_cd) are not carried by the registry and are not in the table"]
-MIN_COUNTS = {"quick": {"table": {"_evaluations": 700}}}
+MIN_COUNTS = {"quick": {"table": {"_evaluations": 1400}}}
 
 PI = Decimal("3.14159265358979323846264338327950288419716939937510582097494")
 _CTX = Context(prec=70)
@@ -142,6 +142,22 @@ def case_entry(case):
         k = "standard_wrong_dimension" if isinstance(q, pint.DimensionalityError) else "standard_unreadable"
         raise Violation(f"{k}:{name}", f"Q(1,{sp!r}).to({row['target']!r}): {type(q).__name__}: {q}")
     _cmp(nit, q.magnitude, want, kind, row["tol"], f"Q(1,{sp!r}).to({row['target']!r})")
+    # the same factor through the base-unit machinery of the default (SI/mks) system; asked for every spelling and on
+    # both passes over the table, so a factor cached under a wrong key shows up
+    s, fb = attempt(ureg.get_base_units, sp)
+    if s == "err":
+        raise Violation(f"standard_unreadable:{name}", f"get_base_units({sp!r}): {type(fb).__name__}: {fb}")
+    f, bu = fb
+    s, q2 = attempt(lambda: ureg.Quantity(f, bu).to(row["target"]) if row["target"] else ureg.Quantity(f, bu).to(ureg.UnitsContainer({})))
+    if s == "err":
+        raise Violation(f"standard_wrong_dimension:{name}", f"get_base_units({sp!r}) = {f!r} {dict(bu._units)}: {q2}")
+    _cmp(nit, q2.magnitude, want, kind, row["tol"], f"get_base_units({sp!r})")
+    s, q3 = attempt(lambda: ureg.Quantity(1, sp).to_base_units())
+    if s == "err":
+        raise Violation(f"standard_unreadable:{name}", f"Q(1,{sp!r}).to_base_units(): {q3}")
+    if dict(q3._units) != dict(bu._units):
+        raise Violation(f"standard_base_units_differ:{name}", f"to_base_units {dict(q3._units)} vs get_base_units {dict(bu._units)}")
+    _cmp(nit, q3.magnitude, f, "exact" if nit == "Fraction" and not isinstance(f, float) else "pi", None, f"Q(1,{sp!r}).to_base_units() vs get_base_units")
 
 
 def _cmp(nit, got, want, kind, tol, what, temp=False):
@@ -176,7 +192,9 @@ def run_table(task, tier, seed, col):
         consistency()
     rows = load_table()
     work = [(r, sp, nit) for r in rows for sp in r["spellings"] for nit in ("Fraction", "float")]
-    for r, sp, nit in shard(work, task["shard"], task["nshard"]):
+    mine = shard(work, task["shard"], task["nshard"])
+    # second pass in reverse order: every entry is also asked after all the others have been
+    for r, sp, nit in mine + mine[::-1]:
         nt = r["kind"] != "exact" or eval_value(r["value"]) != 1
         col.case(("entry", r["name"]), nt, sample={"entry": r["name"], "spelling": sp, "registry": nit, "target": r["target"], "value": r["value"]},
                  cls=r["kind"])
@@ -189,4 +207,12 @@ def run_task(task, tier, seed, col):
 
 
 def replay(sub, case):
+    # history-sensitive defects (a factor cached under a wrong key) need the table to have been walked first
+    from ..core import Violation as _V
+    for r in load_table():
+        for sp in r["spellings"]:
+            try:
+                case_entry({"row": r, "spelling": sp, "nit": case["nit"]})
+            except _V:
+                pass
     return case_entry(case)
